@@ -18,14 +18,18 @@ import (
 
 // Driver for specs/Coinomics.tla (property C13).
 //
-// A scenario is {"cfg": {bonded, coeff, dist, enabled}, "steps": [{"ev","args"}, ...]}.
+// A scenario is {"cfg": {bonded, coeff, dist, abs, denom, enabled}, "steps": [{"ev","args"}, ...]}:
+// the cap is set up at supply + dist (abs = "-") or at the absolute value abs, stored with the label denom.
 // Steps:  endblock{ts}            run the real x/coinomics EndBlocker at block time ts (Unix ms)
 //         set_enabled{enabled}    params.EnableCoinomics
 //         set_coeff{coeff}        params.RewardCoefficient (percent, 18-decimal mantissa)
 //         set_bonded{bonded}      make staking TotalBondedTokens (= balance of the bonded pool, which
 //                                 is what the coinomics keeper reads) exactly this amount: the
 //                                 difference is minted into / moved out of the pool
-//         set_max{dist}           MaxSupply := current bank supply + dist
+//         set_max{dist,denom}     MaxSupply := current bank supply + dist, stored as a coin of `denom`
+//         set_max_abs{max,denom}  MaxSupply := max, whatever the supply is (zero, one, far below the supply, ..)
+//                                 MaxSupply is an sdk.Coin; genesis validation and the keeper accept any
+//                                 denomination label in it, so the label is part of the scenario
 //         ext_supply{delta}       another module mints (delta > 0) or burns (delta < 0)
 // Every scenario runs on a cache-wrapped copy of one freshly initialised app (never written
 // back), so scenarios are independent of each other and of their order.
@@ -46,6 +50,8 @@ type coinCfg struct {
 	Bonded  string `json:"bonded"`
 	Coeff   string `json:"coeff"`
 	Dist    string `json:"dist"`
+	Abs     string `json:"abs"`   // "-": the cap is supply + dist
+	Denom   string `json:"denom"` // label MaxSupply is stored with
 	Enabled bool   `json:"enabled"`
 }
 
@@ -88,13 +94,14 @@ func (c *coinEnv) project() M {
 	p := a.CoinomicsKeeper.GetParams(c.ctx)
 	feeAddr := authtypes.NewModuleAddress(authtypes.FeeCollectorName)
 	return M{
-		"enabled": p.EnableCoinomics,
-		"coeff":   p.RewardCoefficient.BigInt().String(),
-		"max":     bigStr(a.CoinomicsKeeper.GetMaxSupply(c.ctx).Amount),
-		"prevTs":  bigStr(a.CoinomicsKeeper.GetPrevBlockTS(c.ctx)),
-		"supply":  bigStr(a.BankKeeper.GetSupply(c.ctx, p.MintDenom).Amount),
-		"bonded":  bigStr(a.StakingKeeper.TotalBondedTokens(c.ctx)),
-		"fee":     bigStr(a.BankKeeper.GetBalance(c.ctx, feeAddr, p.MintDenom).Amount),
+		"enabled":  p.EnableCoinomics,
+		"coeff":    p.RewardCoefficient.BigInt().String(),
+		"max":      bigStr(a.CoinomicsKeeper.GetMaxSupply(c.ctx).Amount),
+		"maxDenom": a.CoinomicsKeeper.GetMaxSupply(c.ctx).Denom,
+		"prevTs":   bigStr(a.CoinomicsKeeper.GetPrevBlockTS(c.ctx)),
+		"supply":   bigStr(a.BankKeeper.GetSupply(c.ctx, p.MintDenom).Amount),
+		"bonded":   bigStr(a.StakingKeeper.TotalBondedTokens(c.ctx)),
+		"fee":      bigStr(a.BankKeeper.GetBalance(c.ctx, feeAddr, p.MintDenom).Amount),
 	}
 }
 
@@ -106,6 +113,12 @@ func (c *coinEnv) step(st coinStep) (ok bool, errs string) {
 		}
 	}()
 	str := func(k string) string { return st.Args[k].(string) }
+	label := func() string { // (scenarios recorded before the label existed: the native one)
+		if d, ok := st.Args["denom"].(string); ok {
+			return d
+		}
+		return coinDenom
+	}
 	switch st.Ev {
 	case "endblock":
 		ts := mustBig(str("ts")).Int64()
@@ -134,7 +147,9 @@ func (c *coinEnv) step(st coinStep) (ok bool, errs string) {
 		}
 	case "set_max":
 		m := c.supply().Add(coinInt(str("dist")))
-		a.CoinomicsKeeper.SetMaxSupply(c.ctx, sdk.Coin{Denom: coinDenom, Amount: m})
+		a.CoinomicsKeeper.SetMaxSupply(c.ctx, sdk.Coin{Denom: label(), Amount: m})
+	case "set_max_abs":
+		a.CoinomicsKeeper.SetMaxSupply(c.ctx, sdk.Coin{Denom: label(), Amount: coinInt(str("max"))})
 	case "ext_supply":
 		d := coinInt(str("delta"))
 		if d.IsPositive() {
@@ -156,10 +171,20 @@ func (c *coinEnv) step(st coinStep) (ok bool, errs string) {
 }
 
 func (c *coinEnv) setup(cfg *coinCfg) error {
+	if cfg.Abs == "" {
+		cfg.Abs = coinNoAbs
+	}
+	if cfg.Denom == "" {
+		cfg.Denom = coinDenom
+	}
+	capStep := coinStep{"set_max", M{"dist": cfg.Dist, "denom": cfg.Denom}}
+	if cfg.Abs != coinNoAbs {
+		capStep = coinStep{"set_max_abs", M{"max": cfg.Abs, "denom": cfg.Denom}}
+	}
 	for _, st := range []coinStep{
 		{"set_coeff", M{"coeff": cfg.Coeff}},
 		{"set_bonded", M{"bonded": cfg.Bonded}},
-		{"set_max", M{"dist": cfg.Dist}},
+		capStep,
 		{"set_enabled", M{"enabled": cfg.Enabled}},
 	} {
 		if ok, e := c.step(st); !ok {
@@ -176,6 +201,31 @@ func (c *coinEnv) setup(cfg *coinCfg) error {
 // random scenarios
 
 const coinFar = "1000000000000000000000000000000000000000000" // 10^42
+const coinNoAbs = "-"
+
+// labels MaxSupply may be stored with: the native one, a different spelling of it, other coins
+var coinLabels = []string{"aislm", "AISLM", "islm", "uatom", "ibc/27394FB092D2ECCD56123C74F36E4C1F926001CEADA9CA97EA622B25F41E5EB2", "erc20/0x80b5a32E4F032B2a058b4F29EC95EEfEEB87aDcd"}
+
+func coinRandLabel(r *rand.Rand) string {
+	if r.Intn(5) < 3 {
+		return coinDenom
+	}
+	return coinLabels[r.Intn(len(coinLabels))]
+}
+
+// absolute caps: zero, a few units, anything up to the size of the supply and beyond
+func coinRandAbs(r *rand.Rand) string {
+	switch r.Intn(6) {
+	case 0, 1, 2:
+		return "0"
+	case 3:
+		return fmt.Sprint(1 + r.Intn(3))
+	case 4:
+		return coinRandBig(r, 1+r.Intn(94)).String() // below the genesis supply
+	default:
+		return coinRandBig(r, 95+r.Intn(40)).String()
+	}
+}
 
 // year boundaries: 1 Jan 00:00:00 UTC of the year after a non-leap / leap / century year
 var coinNewYears = []int{2001, 2024, 2025, 2026, 2028, 2029, 2100, 2101, 2104, 2105, 2400, 2401}
@@ -248,15 +298,18 @@ type coinGen struct {
 }
 
 func coinRandomCfg(r *rand.Rand) (*coinCfg, *coinGen) {
-	cfg := &coinCfg{Bonded: coinRandBonded(r), Coeff: coinRandCoeff(r), Dist: coinFar, Enabled: r.Intn(6) != 0}
-	switch r.Intn(10) {
+	cfg := &coinCfg{Bonded: coinRandBonded(r), Coeff: coinRandCoeff(r), Dist: coinFar, Abs: coinNoAbs, Enabled: r.Intn(6) != 0}
+	switch r.Intn(12) {
 	case 0:
 		cfg.Dist = "0"
 	case 1:
 		cfg.Dist = "-1"
 	case 2:
 		cfg.Dist = coinRandBig(r, 1+r.Intn(90)).String()
+	case 3:
+		cfg.Dist, cfg.Abs = "0", coinRandAbs(r)
 	}
+	cfg.Denom = coinRandLabel(r)
 	g := &coinGen{r: r, bonded: cfg.Bonded, coeff: cfg.Coeff}
 	// first block: shortly before a new year, or anywhere
 	if r.Intn(3) != 0 {
@@ -339,7 +392,7 @@ func (g *coinGen) nearCap(enabled bool) []coinStep {
 	default:
 		dist = new(big.Int).Mul(exp, big.NewInt(int64(2+r.Intn(3))))
 	}
-	return []coinStep{{"set_max", M{"dist": dist.String()}}, g.block(dt)}
+	return []coinStep{{"set_max", M{"dist": dist.String(), "denom": coinRandLabel(r)}}, g.block(dt)}
 }
 
 func (g *coinGen) next(enabled bool) []coinStep {
@@ -350,7 +403,7 @@ func (g *coinGen) next(enabled bool) []coinStep {
 		case k < 30: // switch minting on again, often after making room below the cap
 			var out []coinStep
 			if r.Intn(2) == 0 {
-				out = append(out, coinStep{"set_max", M{"dist": []string{coinFar, coinRandBig(r, 1+r.Intn(100)).String(), "1", "0"}[r.Intn(4)]}})
+				out = append(out, coinStep{"set_max", M{"dist": []string{coinFar, coinRandBig(r, 1+r.Intn(100)).String(), "1", "0"}[r.Intn(4)], "denom": coinRandLabel(r)}})
 			}
 			return append(out, coinStep{"set_enabled", M{"enabled": true}})
 		case k < 65:
@@ -364,6 +417,8 @@ func (g *coinGen) next(enabled bool) []coinStep {
 			return []coinStep{g.block(g.nextDt(enabled))}
 		case k < 72:
 			return g.nearCap(enabled)
+		case k < 76: // the cap configured to an absolute value, then a block
+			return []coinStep{{"set_max_abs", M{"max": coinRandAbs(r), "denom": coinRandLabel(r)}}, g.block(g.nextDt(enabled))}
 		}
 	}
 	switch k % 4 {
@@ -446,7 +501,7 @@ func coinomicsMain(args []string) error {
 		scn++
 		c := base.fork()
 		if sc.Cfg == nil {
-			sc.Cfg = &coinCfg{Bonded: "1000000000000000000", Coeff: "7800000000000000000", Dist: coinFar, Enabled: true}
+			sc.Cfg = &coinCfg{Bonded: "1000000000000000000", Coeff: "7800000000000000000", Dist: coinFar, Abs: coinNoAbs, Denom: coinDenom, Enabled: true}
 		}
 		if err := c.setup(sc.Cfg); err != nil {
 			return err
